@@ -7,7 +7,7 @@ from hypothesis import strategies as st
 
 from .. import drivers, findings, gen
 from ..render import Index, walk_states
-from ..runner import CaseResult
+from ..runner import CaseResult, case_fp
 from ..tree import Tree
 
 PROPERTY = "C10"
@@ -46,6 +46,7 @@ def plan(tier):
     out = [{"name": "main", "examples": 3000 if tier == "quick" else 300000}]
     for name in probes:
         out.append({"name": name, "examples": 320 if tier == "quick" else 3200, "shards": 4})
+    out.append({"name": "release-after-done", "examples": 300 if tier == "quick" else 20000, "shards": 4})
     return out
 
 
@@ -160,7 +161,43 @@ def _case(draw, prof):
     return {"spec": spec, "history": hist}
 
 
+def _release_case():
+    """stop() after completion: a machine that owns a root-level timer, pending delayed sends (with and
+    without id), a running service and child actors (one of them done with a live grandchild) reaches
+    its top-level final state and is then stopped. Runs on C14's lifecycle machine and laws."""
+    pre = st.lists(st.sampled_from([["send", "DSEND"], ["send", "DSEND2"], ["send", "SPAWN"], ["send", "SPAWN2"], ["send", "GO"],
+                                    ["advance", 1], ["advance", 30], ["send", "STOPWORK"]]), min_size=1, max_size=5)
+    mid = st.sampled_from([[], [["advance", 1]], [["advance", 30]], [["send", "PINGX"]], [["advance", 80]]])
+    return st.fixed_dictionaries({
+        "kind": st.just("release"),
+        "engine": st.sampled_from(["sync", "async"]),
+        "svc": st.sampled_from(["sync", "coro"]),
+        "spawner_first": st.booleans(),
+        "root_svc": st.just(False),
+        "ops": st.builds(lambda a, b: [["start"]] + [list(x) for x in a] + [["send", "STOPWORK"], ["send", "FIN"]] + [list(x) for x in b] + [["stop"], ["advance", 400]],
+                         pre, mid),
+    })
+
+
+def _check_release(case) -> CaseResult:
+    from . import c14
+
+    r = c14.check_case(case)
+    res = CaseResult()
+    res.sample = {"engine": case["engine"], "ops": case["ops"]}
+    res.inconclusive = r.inconclusive
+    res.nontrivial = True
+    res.nontrivial_keys = [case_fp(case)]
+    res.classes.append("release-after-done")
+    for tag, detail in r.violations:
+        parts = tag.split("|")
+        res.violate(f"{parts[0]}|not-released-after-completion|{parts[1]}", detail)
+    return res
+
+
 def strategy(tier, campaign):
+    if campaign == "release-after-done":
+        return _release_case()
     main, probes = _profiles()
     prof = gen.profile(**(main if campaign == "main" else probes[campaign]))
     return _case(prof)
@@ -341,6 +378,8 @@ def _check_ondone_fires(engine, run, tree, idx, res):
 
 
 def check_case(case) -> CaseResult:
+    if case.get("kind") == "release":
+        return _check_release(case)
     res = CaseResult()
     spec = case["spec"]
     tree = Tree(spec)
